@@ -1059,7 +1059,11 @@ class _Simu(_IObserver, _params.Updatable, ABC):
         else:
             csr_data = np.bincount(inv, weights=data, minlength=nnz)
 
-        matrix = sparse.csr_matrix((csr_data, indices, indptr), shape=shape)
+        # the memoised pattern is shared by every later assembly: the matrix handed out gets its own index arrays
+        # (an in-place structural edit of it, e.g. eliminate_zeros(), must not reach the map)
+        matrix = sparse.csr_matrix(
+            (csr_data, indices.copy(), indptr.copy()), shape=shape
+        )
         # Canonical by construction (scipy sorted the pattern): lets Solvers skip its canonical fixup.
         matrix.has_canonical_format = True
         return matrix
